@@ -46,7 +46,7 @@ func (h *verifEcho) RegisterMethod(rpcName string, receiver interface{}, methodN
 func (h *verifEcho) Handle(ctx context.Context, req *Message) *Message {
 	r := &Message{Response: &Response{}, ID: req.ID, Version: Version}
 	h.handled[string(req.ID)]++
-	var args []interface{}
+	var args []int64 // exact: a detour through interface{} would round tokens above 2^53 like float64
 	if err := json.Unmarshal(req.Request.Params, &args); err != nil || len(args) != 1 {
 		r.Error = &ErrResponse{Code: ErrCodeInvalidParams, Message: "bad params"}
 		return r
@@ -75,6 +75,9 @@ func verifPair() (*Remote, *Remote, *verifEcho, *verifEcho) {
 	ha := &verifEcho{name: "A", handled: map[string]int{}, ctxOK: true}
 	hb := &verifEcho{name: "B", handled: map[string]int{}, ctxOK: true}
 	a := &Remote{Codec: &verifChanCodec{in: ba, out: ab, addr: "a"}, Client: &Client{}, Server: ha}
+	if verifapi.Param("nilclient", 0) == 1 {
+		a.Client = nil // as the client binary builds its connection to the pool
+	}
 	b := &Remote{Codec: &verifChanCodec{in: ab, out: ba, addr: "b"}, Client: &Client{}, Server: hb}
 	ha.self, hb.self = a, b
 	go a.Serve()
